@@ -13,6 +13,7 @@ import (
 	"reflect"
 	"strings"
 	"sync"
+	"sync/atomic"
 	"time"
 
 	"git.sr.ht/~rockorager/vaxis"
@@ -45,6 +46,11 @@ type Scn struct {
 	Alt   bool
 	Loose bool
 	Steps []Step
+	// QSize > 0: the application's event queue holds that many events; Stall:
+	// the application does not read its events while a step's reports arrive
+	// (for 60 ms), so the queue is full and the input loop waits behind it
+	QSize int  `json:",omitempty"`
+	Stall bool `json:",omitempty"`
 }
 
 // Answer: what a query call returned and the values the terminal has
@@ -178,7 +184,7 @@ func Execute(sc *Scn) *Result {
 		resp.OnWrite(p)
 	}
 	_ = lastBg
-	vx, err := vaxis.New(vaxis.Options{WithConsole: con, NoSignals: true})
+	vx, err := vaxis.New(vaxis.Options{WithConsole: con, NoSignals: true, EventQueueSize: sc.QSize})
 	if err != nil {
 		res.Note = "start: " + err.Error()
 		return res
@@ -187,8 +193,13 @@ func Execute(sc *Scn) *Result {
 	var emu sync.Mutex
 	sawSentinel := make(chan struct{}, 64)
 	stop := make(chan struct{})
+	var paused atomic.Bool
 	go func() {
 		for {
+			if paused.Load() {
+				time.Sleep(time.Millisecond)
+				continue
+			}
 			select {
 			case ev := <-vx.Events():
 				if k, ok := ev.(vaxis.Key); ok && k.Text == sentinel {
@@ -256,9 +267,16 @@ func Execute(sc *Scn) *Result {
 			if strings.Contains(bs, "\x1b]52;c;aGk=") {
 				reported["clipboard"] = append(reported["clipboard"], fmt.Sprintf("%q,%v", "hi", false))
 			}
+			if sc.Stall {
+				paused.Store(true)
+			}
 			con.Inject(b)
 			if esc {
 				time.Sleep(40 * time.Millisecond) // a lone ESC is a key press only after silence
+			}
+			if sc.Stall {
+				time.Sleep(60 * time.Millisecond)
+				paused.Store(false)
 			}
 		case "call":
 			rmu.Lock()
@@ -426,6 +444,35 @@ func Stream(rng *rand.Rand) *Scn {
 		sc.Steps = append(sc.Steps, Step{Op: "inject", Reports: []Report{{K: "esckey", Hex: hx("\x1b"), Code: 27}}})
 		sc.Steps[len(sc.Steps)-1].Reports[0].K = "esckey"
 	}
+	return sc
+}
+
+// Backpressure: a report stream arriving while the application is not
+// reading its (small) event queue: every report still becomes its event, once,
+// in stream order.
+func Backpressure(rng *rand.Rand) *Scn {
+	sc := Stream(rng)
+	noEsc := func(steps []Step) []Step { // a lone ESC is a key press only when silence follows: keep none but a final one
+		var out []Step
+		for _, st := range steps {
+			lone := false
+			for _, r := range st.Reports {
+				lone = lone || r.K == "esckey"
+			}
+			if !lone {
+				out = append(out, st)
+			}
+		}
+		return out
+	}
+	sc.Steps = noEsc(sc.Steps)
+	for len(sc.Steps) < 3 {
+		more := Stream(rng)
+		sc.Steps = append(sc.Steps, noEsc(more.Steps)...)
+	}
+	sc.Kind = "backpressure"
+	sc.QSize = []int{1, 2, 4, 8}[rng.Intn(4)]
+	sc.Stall = true
 	return sc
 }
 
